@@ -2,4 +2,5 @@
 pub mod doc;
 pub mod dynval;
 pub mod mutate;
+pub mod numlit;
 pub mod tokens;
